@@ -117,7 +117,7 @@ def main():
         sys.exit(2)
     extra = []
     if seed:
-        extra += ['-V', 'smt-option=smt.random_seed=%d' % (seed % 1000), '-V', 'smt-option=sat.random_seed=%d' % (seed % 1000)]
+        extra += ['--smt-option', 'smt.random_seed=%d' % (seed % 1000), '--smt-option', 'sat.random_seed=%d' % (seed % 1000)]
     rlimit = 30 if tier == 'quick' else 60
     try:
         run = runner.run_verus(path, res, rlimit=rlimit, extra=extra)
@@ -308,8 +308,9 @@ def run_canary(res, build, prop):
 def run_seeds(path, res, seeds):
     out = []
     for s in seeds:
-        r = runner.run_verus(path, res, rlimit=60, extra=['-V', 'smt-option=smt.random_seed=%d' % s, '-V', 'smt-option=sat.random_seed=%d' % s])
-        out.append(dict(seed=s, ok=r.ok, verified=r.verified, errors=r.errors, smt_ms=r.smt_ms))
+        r = runner.run_verus(path, res, rlimit=60, extra=['--smt-option', 'smt.random_seed=%d' % s, '--smt-option', 'sat.random_seed=%d' % s])
+        out.append(dict(seed=s, ok=r.ok, verified=r.verified, errors=r.errors, smt_ms=r.smt_ms,
+                        failing=[f.oid for f in r.failures][:10], tool=r.tool_errors[:3]))
     return out
 
 
